@@ -113,11 +113,18 @@ def build(shapes, seed=0, mode="binds", formname="data", homonyms=False):
         shapes, dups = _homonymize(shapes, rnd)
     f = LForm(rnd)
     dotted = rnd.random() < 0.25      # names with dots and hyphens (legal XML names; references to them must still be recognised)
+    # names that are string prefixes of one another (nxx, nxxx, ...): a path of one element then begins with the path of another
+    prefixy = not dotted and random.Random(f"prefixy:{seed}:{shapes}").random() < 0.25
     n = 1
     lists_used = set()
     for shape, given in shapes:
         n += 1
         name = given or f"n{n}"
+        if prefixy and re.fullmatch(r"n\d+", name):
+            pn = "n" + "x" * int(name[1:])
+            if name in dups:
+                dups = dups | {pn}
+            name = pn
         if dotted and re.fullmatch(r"n\d+", name) and (rnd.random() < 0.6 or (given or f"n{n}") in dups):
             name = f"{name}.a-b"
             if (given or f"n{n}") in dups:
